@@ -1,6 +1,6 @@
 (* C07 — Every simulation mode returns a complete, correctly labelled result. *)
 From Coq Require Import ZArith List Bool Arith.
-From BS Require Import Base.Arith Model.Queue Model.Dispatch Model.SSA Proofs.DispatchProofs Proofs.ShapeProofs.
+From BS Require Import Base.Arith Model.Queue Model.Dispatch Model.SSA Proofs.DispatchProofs Proofs.ShapeProofs Proofs.RuleRows Proofs.DvShape.
 Import ListNotations.
 
 (* Finite domain, enumerated completely (2*2*2*3*2*5*2 = 480 option records): all_opts lists
@@ -34,7 +34,15 @@ Theorem C07_volume_result_shape :
   (vs_divided st = false -> length (vs_rows st) = length ts).
 Proof. exact @vssa_result_shape. Qed.
 
-(* The deterministic result, the delay + volume simulator, the time axis, the column labels and the first row are covered
+(* The delay + volume loop: the same shape (and every row a rule-applied state). *)
+Theorem C07_delay_volume_result_shape :
+  forall F (A : Arith F) pi2 (s : sim F) fuel gfuel vm V0 q ts u pos st,
+  dvssa_simulate A pi2 fuel gfuel s vm V0 q ts u pos = Done st ->
+  length (dv_rows st) = length (dv_vols st) /\ (length (dv_rows st) <= length ts)%nat /\
+  (dv_divided st = false -> length (dv_rows st) = length ts) /\ Forall (rule_applied_v A s) (dv_rows st).
+Proof. exact @dvssa_result_shape. Qed.
+
+(* The deterministic result, the time axis, the column labels and the first row are covered
    by the exhaustive run over the option lattice and by the stream replays; not mechanised (C07_partial). *)
 
 Example C07_example_volume_object :
@@ -47,3 +55,4 @@ Print Assumptions C07_rejected_iff.
 Print Assumptions C07_ssa_row_count.
 Print Assumptions C07_delay_row_count.
 Print Assumptions C07_volume_result_shape.
+Print Assumptions C07_delay_volume_result_shape.
